@@ -45,7 +45,11 @@ RULE = ("model tie: (1) utils.copypath run on small real filesystems built in a 
         "SHORTER file of that name (or nothing) lies where the escape lands; single metafiles and metafile directories with a benign "
         "metafile; destinations 1-4 levels deep, relative or absolute; judged by C14's own rule: everything in the case directory "
         "outside the destination (search directories, metafiles) is snapshotted before and after and must be identical -- refusing "
-        "the metafile is fine.  "
+        "the metafile is fine.  Payloads at SCALE (end to end only; rebuild_common.scale_plan, as in C13, plus partially matching "
+        "decoys and aligned v1; half of them into a pre-populated destination): candidates of 1 .. 9 MiB -- exactly k MiB, k MiB +- 1, "
+        "k MiB + r -- at piece lengths 256 KiB .. 16 MiB, v1 / v2 / hybrid metafiles of every creator and of the "
+        "reference encoder: every file written must have the recorded length and be byte-identical to a candidate, whatever buffer the "
+        "copy goes through.  "
         "Non-trivial = distinct case in which the destination was pre-populated or changed.")
 TRUSTED_BASE = rc.TRUSTED_BASE + [
     "sys.addaudithook reports every file-system mutation Python code performs (checked on each run: every path the snapshots show as "
